@@ -2,6 +2,7 @@ import CnvVerif.Driver.Json
 import CnvVerif.Driver.Interval
 import CnvVerif.Driver.Call
 import CnvVerif.Driver.SegFilter
+import CnvVerif.Driver.SegFilterExt
 import CnvVerif.Driver.Tile
 import CnvVerif.Driver.Center
 import CnvVerif.Driver.Fix
@@ -20,7 +21,7 @@ import CnvVerif.Driver.Stats
 open Lean CnvVerif.Drv
 
 def handlers : List (String → Json → Option Json → R (Option Json)) :=
-  [handleInterval, handleCall, handleSegFilter, handleTile, handleCenter, handleFix, handleAccess, Genes.handleGenes, handleFormats, handleExport, Reference.handleReference, handleCoverage, handleEffects, handleBins, handleVcf, handleDescriptives, Haar.handleHaar, handleStats]
+  [handleInterval, handleCall, handleSegFilter, handleSegFilterExt, handleTile, handleCenter, handleFix, handleAccess, Genes.handleGenes, handleFormats, handleExport, Reference.handleReference, handleCoverage, handleEffects, handleBins, handleVcf, handleDescriptives, Haar.handleHaar, handleStats]
 
 def dispatch (op : String) (inp : Json) (impl : Option Json) : R Json := do
   for h in handlers do
